@@ -2,7 +2,7 @@
    outputs), and the fact that the model's own output always passes them. *)
 From Coq Require Import ZArith List Bool Lia Arith.
 From LV Require Import Common.Cases Seq.SeqCommon Seq.Ipa2Tokens Seq.Ipa2TokensProofs Seq.Token2Class
-     Seq.Token2ClassProofs Seq.ClassTokens Seq.ClassTokensProofs Seq.SeqExec.
+     Seq.Token2ClassProofs Seq.ClassTokens Seq.ClassTokensProofs Seq.PipelineProofs Seq.SeqExec.
 Import ListNotations.
 Local Open Scope nat_scope.
 
@@ -139,4 +139,22 @@ Proof.
       exists w. split; [reflexivity|now apply Nat.eqb_eq].
   - intros (L & (s & Es & Ls) & (w & Ew & Lw)). rewrite Es, Ew. cbn [len_okb].
     repeat split; [exact L|now apply Nat.eqb_eq|now apply Nat.eqb_eq].
+Qed.
+
+(* the checker of the way back in a pipeline case *)
+Theorem aligned_ofb_spec cls aligned : aligned_ofb cls aligned = true <-> aligned_of cls aligned.
+Proof. unfold aligned_ofb, aligned_of. apply toks_eqb_eq. Qed.
+
+Theorem pipe_backb_spec p toks cls :
+  pp_toks p = Ok toks -> pp_cls p = Ok cls ->
+  aligned_of cls (pp_aligned p) -> length cls = length toks -> ~ In (pp_gap p) toks ->
+  (pipe_backb p = true <->
+   (degap (pp_gap p) (pp_out p) = toks /\
+    Forall2 (fun o c => o = pp_gap p <-> is_gap_class c = true) (pp_out p) (pp_aligned p))).
+Proof.
+  intros Et Ec A L NI. unfold pipe_backb. rewrite Et, Ec.
+  apply aligned_ofb_spec in A. rewrite A. apply Nat.eqb_eq in L. rewrite L. cbn [negb orb].
+  assert (E : existsb (tok_eqb (pp_gap p)) toks = false).
+  { destruct (existsb (tok_eqb (pp_gap p)) toks) eqn:E; [|reflexivity]. apply existsb_tok_In in E. contradiction. }
+  rewrite E. cbn [orb]. now rewrite andb_true_iff, toks_eqb_eq, pattern_okb_spec.
 Qed.
